@@ -26,6 +26,9 @@ func propC03(w *World, r *Report) {
 	checkHeaderWrite(w, r, fn)
 	checkReadBack(w, r)
 	checkWriteArgs(w, r)
+	checkReadAtNonEmpty(w, r)
+	checkTableCountRange(w, r)
+	checkScalerSet(w, r)
 	// what an independent parser reads as glyph offsets: the short loca format must be able to hold them
 	RunLocaPair(w, r)
 	RunScanOrder(w, r)
